@@ -229,6 +229,10 @@ def k3_handler_ops(res, tier):
         summarize_paths(res, e, results, lambda r: r.info if isinstance(r.info, dict) else None, key_prefix=f'C04.K3:{opname}:', unwind_ok=False)
 
 
+F35_SRC = ('fn f(x) { raise Error("stop"); }\ntry {\n  [1, 2].iter().map(f).list();\n} catch e: Error {\n  print("caught");\n}\nprint("after");\n')
+F35_REPLAY = dict(kind='lay', source=F35_SRC, expect_stdout='caught\nafter\n', bad_exit=[1])
+
+
 @obligation('C04.K2.stack_unwind', 'C04', programs=('vm',))
 def k2_unwind(res, tier):
     """Fiber::stack_unwind from an arbitrary fiber: picks the innermost handler, refuses handlers below a native boundary,
@@ -264,9 +268,14 @@ def k2_unwind(res, tier):
         if not has:
             e.check(rn == ('UnwindStopped' if btag == 1 else 'Unhandled'), 'without handlers: Unhandled, or UnwindStopped inside a native call')
             return {'case': 'no handler', 'result': rn}
-        if btag == 1 and e.fork_bool(z3.ULT(hdepth, bval)):
-            e.check(rn == 'UnwindStopped', 'a handler below the native boundary is not used')
-            return {'case': 'below native boundary', 'result': rn}
+        # the boundary: run_fun / run_method / runtime_error record frames.len() of the code that called into native code BEFORE the
+        # callee frame is pushed (C18.K2.run_fun_signals decides that on the real run_fun); a handler registered by one of those
+        # frames (call_frame_depth <= boundary) belongs to the caller and must be left to it, also when the native has no frame
+        # of its own (stack-less natives: depth == boundary is the frame that invoked the native)
+        if btag == 1 and e.fork_bool(z3.ULE(hdepth, bval)):
+            e.check(rn == 'UnwindStopped', 'a handler of the code that called into native code (at or below the native boundary) is not used by the nested run',
+                    {'handler_depth_equals_boundary': e.is_valid(hdepth == bval)})
+            return {'case': 'at or below native boundary', 'result': rn}
         e.check(rn == 'PotentiallyHandled', 'the innermost handler is chosen')
         frame_ptr = e.as_seqptr(e, st.fiber.f[W.fib_idx['frame']].get(e))
         e.check(isinstance(frame_ptr, SeqPtr) and frame_ptr.seq is st.frames, 'current frame pointer points into the frames vector')
@@ -280,6 +289,14 @@ def k2_unwind(res, tier):
         e.check(uv.len == st.nh0, 'the handler stays registered until the clause decides')
         return {'case': 'handled', 'result': rn}
     results = e.explore(path)
+    for r in results:
+        for lab, ok, info in list(r.checks):
+            if not ok and 'at or below the native boundary' in lab:
+                res.fail('C04.K2:handler of the frame that invoked a stack-less native is run inside the nested execution',
+                         'Fiber::stack_unwind accepts a handler whose call_frame_depth equals the native boundary: an error raised in a callback of a '
+                         'stack-less native (iter.map(f).list()) is handled by the caller\'s catch while the native is still running; when the nested run '
+                         'returns the error is delivered a second time', info, replay=F35_REPLAY)
+                r.checks.remove((lab, ok, info))
     _panics(res, results, 'C04.K2.stack_unwind')
     summarize_paths(res, e, results, lambda r: r.info if isinstance(r.info, dict) else None, key_prefix='C04.K2:', unwind_ok=False)
 
